@@ -56,6 +56,39 @@ def descriptor_ids(obj, acc=None, seen=None):
     return acc
 
 
+def sibling_pair(rnd):
+    """two DIFFERENT strings that share every token's plain text at the same residue number and differ only in weights / listed transition
+    weights: anything remembered per plain text, per residue number or per token position across objects shows as the one string generating with
+    the other one's numbers"""
+    def lst(n, allowed):
+        while True:
+            l = [rnd.choice([0, 0, 1, 2, 3]) if i in allowed else 0 for i in range(n)]
+            if sum(l) > 0:
+                return "|" + " ".join(str(x) for x in l) + "|"
+
+    def variant(kind):
+        if kind == 0:
+            a = rnd.choice(["", lst(5, range(5))])
+            b = rnd.choice(["", lst(5, range(5))])
+            c = rnd.choice(["", "|2|", "|0.5|"])
+            return f"{{[][${a}]CC[${b}], [${c}]CC(C(=O)O)[$]; [$][H][]}}|gauss(300, 40)|"
+        if kind == 1:
+            a = rnd.choice(["", lst(6, (1, 3, 5))])
+            b = rnd.choice(["", lst(6, (0, 2, 4))])
+            c = rnd.choice(["", "|3|", "|0.25|"])
+            return f"C{{[>][<{a}]CC[>{b}], [<{c}]C(C)C[>]; [<][H], [>]O[]}}|uniform(100, 300)|"
+        a = rnd.choice(["", lst(4, range(4))])
+        w = rnd.choice(["", "|2|", "|5|"])
+        return f"O{{[$][${a}]CC(F)[$], [${w}]CO[$][$]}}|uniform(80, 200)|[${w}]CC[$]{{[$][$]CS[$]; [$]Br[]}}|uniform(60, 150)|"
+
+    kind = rnd.randrange(3)
+    for _ in range(50):
+        x, y = variant(kind), variant(kind)
+        if x != y:
+            return x, y
+    return x, y
+
+
 def main():
     ck = Check("C10")
     ck.do_build()
@@ -83,6 +116,8 @@ def main():
         strs = [rnd.choice(texts) for _ in range(k)]
         if rnd.random() < 0.3:
             strs[0] = rnd.choice(sorted(deadend_texts))
+        if h % 3 == 1:
+            strs[0], strs[1] = sibling_pair(rnd)      # same plain text everywhere, other weights / transition lists
         if rnd.random() < 0.5:
             strs.append(strs[0])                      # a second instance parsed from the same string
         # one system (ensemble) made of two of the strings, in a third of the histories: System.generate(rng=...) is a generation too
